@@ -181,6 +181,13 @@ def check(ctx, rep):
         if p.status != "return":
             continue
         mk = [e for e in p.calls() if e.d["func"] == ("class", Z.key)]
+        FS = ("seq", (), ("param", fz.vararg), 0)
+        some = None
+        for t_, v_, b_ in q.atoms(p):
+            if t_ == FS or t_ == ("param", fz.vararg):
+                some = v_
+        if some is not None:
+            rep.ob("R-COMPOSE", "f_zip zips when there are inputs and returns the empty tuple when there are none", bool(mk) == bool(some), "with %s inputs f_zip %s" % ("some" if some else "no", "builds a zipper" if mk else "returns an already-resolved empty tuple"), where_of(fz), trace_of(p))
         if mk:
             kinds.add("some")
             a = mk[0].d["args"]
